@@ -589,6 +589,7 @@ def run(repo: Repo, R: Report) -> None:
 
     sorts_of_sets_are_total(repo, R, r_ord, sl)
     no_container_rendering(repo, R, sl)
+    declared_scalars_type_fixed(repo, R)
 
     # ------------------------------------------------------------------ D4 same functions, same fields on both paths
     r_same = R.rule("C04-D4-inspect-equals-runtime", "inspection and run time compute the three pipeline-level ids with the same functions of semantiva.metadata.semantic_id / graph_builder, from the canonical nodes enriched with the same metadata and from (node_uuid, node semantic id) pairs built alike; each id prefix is produced in exactly one function", 9)
@@ -817,7 +818,9 @@ class Flow:
             ids = {d.id for d in defs}
             out = []
             for d in defs:
-                seen = self.g.reach([t for t, _l in self.g.succ[d.id]], blocked=ids - {d.id, use})
+                blocked = ids - {d.id, use}
+                # (CFG.reach expands a start node even when it is blocked: a redefinition that directly follows kills)
+                seen = self.g.reach([t for t, _l in self.g.succ[d.id] if t not in blocked], blocked=blocked)
                 if use in seen:
                     out.append(d.id)
             entry = use == self.g.entry or use in self.g.reach([self.g.entry], blocked=ids - {use})
@@ -1014,7 +1017,7 @@ class Flow:
             else:
                 out.add((a, path))
         if path:
-            out |= self._stored_into(name, objs, path, stack, 0)
+            out |= self._stored_into(name, objs, path, stack, 0, use)
         return out
 
     def _overwritten(self, name: str, acc: str, use: int, did: int) -> bool:
@@ -1153,12 +1156,22 @@ class Flow:
                 out.append(u)
         return out
 
-    def _stored_into(self, name: str, objs: Set[int], path: Tuple[str, ...], stack: frozenset, depth: int) -> Set[Leaf]:
+    def _can_precede(self, u: int, use: int) -> bool:
+        """CFG node *u* can have completed before node *use* is evaluated."""
+        key = ("after", u)
+        if key not in self._rd:
+            self._rd[key] = self.g.reach([t for t, _l in self.g.succ[u]])  # type: ignore[assignment]
+        return use in self._rd[key]  # type: ignore[operator]
+
+    def _stored_into(self, name: str, objs: Set[int], path: Tuple[str, ...], stack: frozenset, depth: int, use: Optional[int] = None) -> Set[Leaf]:
         out: Set[Leaf] = set()
         for nm, kind, site, st in self._mutations():
             if nm != name:
                 continue
             uses = self._same_object(name, objs, st)
+            if use is not None and kind != "alias":
+                # what is put into the container only after the value was read cannot be what was read
+                uses = [u for u in uses if self._can_precede(u, use)]
             if not uses:
                 continue
             full_path = path
@@ -1172,7 +1185,7 @@ class Flow:
                 if kind == "alias":
                     if depth < 3:
                         alias_defs = {d.id for d in self._all_defs(site.id) if d.ast is st}
-                        out |= self._stored_into(site.id, alias_defs, path, stack, depth + 1)
+                        out |= self._stored_into(site.id, alias_defs, path, stack, depth + 1, use)
                 elif kind in ("store", "estore"):
                     accs: List[str] = []
                     cur = site
@@ -2587,3 +2600,269 @@ def required_keys_sorted(repo: Repo, R: Report, rule: str) -> None:
     is_empty = lambda l: not l[1] and ((isinstance(l[0], (ast.List, ast.Tuple)) and not l[0].elts) or (isinstance(l[0], ast.Call) and call_attr(l[0]) in ("list", "tuple") and not l[0].args))  # noqa: E731
     unsorted = sorted(_show_leaf(l) for l in expanded if not (is_sorted(l) or is_empty(l)))
     R.check(any(is_sorted(l) for l in expanded) and not unsorted, rule, BUILDER, where, "required context keys returned sorted", f"the required-key list of the inspection payload follows set iteration order (hash-seed dependent), entirely or among names the sort key ties: it can be `{unsorted[0] if unsorted else 'nothing sorted'}`", fn.lineno)
+
+
+# ---------------------------------------------------------------------------
+# round 9: D2c - declared scalar fields of a sweep-variable spec reach the hashed signature with a type fixed by the code
+# ---------------------------------------------------------------------------
+TYPE_FIXERS = {"float", "int", "str", "bool", "len"}
+DECLARED_SCALARS = {"float", "int", "str", "bool"}
+TYPE_QUERIES = {"type", "isinstance", "issubclass", "hasattr", "callable", "id", "is_dataclass"}
+
+
+def _declared_scalar_fields(cls: ast.ClassDef) -> Dict[str, Tuple[str, int]]:
+    """field -> (declared scalar type, position) of the class-level annotated fields (dataclass style) whose annotation
+    is float / int / str / bool, or a Literal of text constants (str)."""
+    out: Dict[str, Tuple[str, int]] = {}
+    pos = 0
+    for st in cls.body:
+        if not (isinstance(st, ast.AnnAssign) and isinstance(st.target, ast.Name)):
+            continue
+        ann = st.annotation
+        if isinstance(ann, ast.Constant) and isinstance(ann.value, str):
+            try:
+                ann = ast.parse(ann.value, mode="eval").body
+            except SyntaxError:
+                ann = st.annotation
+        t: Optional[str] = None
+        d = dotted_name(ann)
+        if d is not None and d.split(".")[-1] in DECLARED_SCALARS:
+            t = d.split(".")[-1]
+        elif isinstance(ann, ast.Subscript) and (dotted_name(ann.value) or "").split(".")[-1] == "Literal":
+            elts = ann.slice.elts if isinstance(ann.slice, ast.Tuple) else [ann.slice]
+            if elts and all(isinstance(x, ast.Constant) and isinstance(x.value, str) for x in elts):
+                t = "str"
+        if d is None or d.split(".")[-1] != "ClassVar":
+            if t is not None:
+                out[st.target.id] = (t, pos)
+            pos += 1
+    return out
+
+
+def _membership_validated(cls: ast.ClassDef) -> Set[str]:
+    """Fields the class itself refuses (raise in __post_init__ / __init__) unless they equal one of some text constants."""
+    out: Set[str] = set()
+    for m in cls.body:
+        if not (isinstance(m, FuncNode) and m.name in ("__post_init__", "__init__")):
+            continue
+        for n in walk_no_nested(m):
+            if not (isinstance(n, ast.If) and any(isinstance(b, ast.Raise) for b in n.body)):
+                continue
+            t = n.test
+            if isinstance(t, ast.Compare) and len(t.ops) == 1 and isinstance(t.ops[0], ast.NotIn) and isinstance(t.left, ast.Attribute) and isinstance(t.left.value, ast.Name) and t.left.value.id == "self":
+                c = t.comparators[0]
+                if isinstance(c, (ast.Tuple, ast.List, ast.Set)) and c.elts and all(isinstance(x, ast.Constant) and isinstance(x.value, str) for x in c.elts):
+                    out.add(t.left.attr)
+    return out
+
+
+def _in_test_position(e: ast.AST, top: ast.AST) -> bool:
+    """The expression is only compared / tested (its value does not become part of what the statement produces)."""
+    cur = e
+    for a in ancestors(e):
+        if isinstance(a, ast.Compare):
+            return True
+        if isinstance(a, (ast.If, ast.While, ast.IfExp, ast.Assert)) and cur is a.test:
+            return True
+        if isinstance(a, ast.stmt) or a is top:
+            return False
+        cur = a
+    return False
+
+
+def spec_field_reads(repo: Repo, rel: str, fn: ast.AST, pname: str, depth: int = 0, seen: Optional[Set[Tuple[str, str, str]]] = None) -> List[Tuple[str, ast.AST, Optional[str], str, str]]:
+    """How *fn* (nested functions included) reads the object bound to *pname*:
+    [(field or '*', expression, name of the type conversion the read value is the argument of / None, file, function)].
+    '*' = the whole object leaves the package (asdict(spec), vars(spec), spec.__dict__): every field, as it is.  A
+    package function that is handed the object is followed."""
+    seen = seen if seen is not None else set()
+    names = {pname}
+    for n in ast.walk(fn):  # plain aliases
+        if isinstance(n, ast.Assign) and isinstance(n.value, ast.Name) and n.value.id in names:
+            names |= {t.id for t in n.targets if isinstance(t, ast.Name)}
+    out: List[Tuple[str, ast.AST, Optional[str], str, str]] = []
+    mod = repo.module(rel)
+    qn = getattr(fn, "name", "?")
+
+    def fixed_by(e: ast.AST) -> Optional[str]:
+        par = getattr(e, "_parent", None)
+        if isinstance(par, ast.Call) and isinstance(par.func, ast.Name) and par.func.id in TYPE_FIXERS and len(par.args) == 1 and par.args[0] is e and not par.keywords:
+            return par.func.id
+        return None
+
+    for n in ast.walk(fn):
+        if not (isinstance(n, ast.Name) and isinstance(n.ctx, ast.Load) and n.id in names):
+            continue
+        par = getattr(n, "_parent", None)
+        if isinstance(par, ast.Attribute) and par.value is n:
+            if par.attr == "__dict__":
+                out.append(("*", par, None, rel, qn))
+            elif not par.attr.startswith("__") and not (isinstance(getattr(par, "_parent", None), ast.Call) and par._parent.func is par):
+                if not _in_test_position(par, fn):
+                    out.append((par.attr, par, fixed_by(par), rel, qn))
+            continue
+        if isinstance(par, ast.keyword):
+            par = getattr(par, "_parent", None)
+        if not isinstance(par, ast.Call) or par.func is n:
+            continue
+        cname = call_attr(par)
+        if cname == "getattr" and len(par.args) >= 2 and par.args[0] is n and isinstance(par.args[1], ast.Constant) and isinstance(par.args[1].value, str):
+            if not par.args[1].value.startswith("__") and not _in_test_position(par, fn):
+                out.append((par.args[1].value, par, fixed_by(par), rel, qn))
+            continue
+        if cname in TYPE_QUERIES:
+            continue
+        targets = [(tm, tf) for tm, tf in repo.resolve_call(mod, par) if isinstance(tf, FuncNode) and tm.defs.get(qualname_of(tf)) is tf]
+        if not targets:
+            if not _in_test_position(par, fn):
+                out.append(("*", par, None, rel, qn))
+            continue
+        for tm, tf in targets:
+            pos = [a.arg for a in tf.args.posonlyargs + tf.args.args]
+            bound = [pos[i] for i, a in enumerate(par.args) if a is n and i < len(pos)] + [kw.arg for kw in par.keywords if kw.value is n and kw.arg]
+            for p2 in bound:
+                key = (tm.rel, qualname_of(tf), p2)
+                if key in seen or depth >= 2:
+                    continue
+                seen.add(key)
+                try:
+                    sub = nfunc(repo, tm.rel, qualname_of(tf), copyprop="all")
+                except AnalysisError:
+                    continue
+                out += spec_field_reads(repo, tm.rel, sub, p2, depth + 1, seen)
+    return out
+
+
+def _constructor_sites(repo: Repo, cls_mod, cls: ast.ClassDef) -> List[Tuple[object, str, ast.Call, Optional[Flow]]]:
+    """(module, function, call, value-origin analysis) of the package code (examples aside) that constructs *cls*; the
+    call is the one of the normal form of the function where that can be analysed."""
+    out: List[Tuple[object, str, ast.Call, Optional[Flow]]] = []
+
+    def constructs(mod, c: ast.Call) -> bool:
+        if (call_attr(c) or "") != cls.name and not (isinstance(c.func, ast.Name) and mod.imports.get(c.func.id, "").endswith("." + cls.name)):
+            return False
+        try:
+            r = repo.resolve_name(mod, c.func, c)
+        except AnalysisError:
+            return False
+        return r is not None and r[1] is cls
+
+    for mod, qn, f in sorted(repo.all_functions(), key=lambda t: (t[0].rel, getattr(t[2], "lineno", 0))):
+        if mod.rel.startswith("semantiva/examples/") or mod.defs.get(qn) is not f:
+            continue
+        raw_sites = [c for c in calls_in(f) if constructs(mod, c)]
+        if not raw_sites:
+            continue
+        try:
+            flow: Optional[Flow] = flow_of(repo, mod.rel, qn)
+        except AnalysisError:
+            flow = None
+        nf_sites = [c for c in calls_in(flow.fn) if constructs(mod, c)] if flow is not None else []
+        if flow is not None and len(nf_sites) >= len(raw_sites):
+            out += [(mod, qn, c, flow) for c in nf_sites]
+        else:
+            out += [(mod, qn, c, None) for c in raw_sites]
+    return out
+
+
+def _type_fixed_value(flow: Optional[Flow], site: ast.Call, v: ast.AST) -> Tuple[bool, str]:
+    """The value handed to the constructor has a type chosen by the code on every path: a constant, the result of
+    float()/int()/str()/bool(), or a value the function refuses (isinstance of exactly one scalar type) otherwise."""
+    if flow is None:
+        return True, ""  # not analysable: the benefit of the doubt (the other rules report unknown shapes)
+    try:
+        leaves = flow.origins(v)
+    except AnalysisError:
+        return True, ""
+    raw = []
+    for root, rest in leaves:
+        if not rest and isinstance(root, ast.Constant):
+            continue
+        if not rest and isinstance(root, ast.Call) and isinstance(root.func, ast.Name) and root.func.id in TYPE_FIXERS:
+            continue
+        raw.append((root, rest))
+    if not raw:
+        return True, ""
+    # validated: every way to the call passes `isinstance(<v>, <one scalar type>)`
+    texts = {norm(v)}
+    if isinstance(v, ast.Name):
+        texts |= {norm(d.ast.value) for d in flow._all_defs(v.id) if isinstance(d.ast, ast.Assign) and len(d.ast.targets) == 1 and isinstance(d.ast.targets[0], ast.Name)}
+    for x_text in sorted(texts):
+        def one_type(test: ast.AST, _t=x_text) -> Optional[bool]:
+            t = _isinstance_of(test, _t)
+            return True if t is not None and len(t) == 1 and t <= DECLARED_SCALARS else None
+        if _guarded(flow.g, flow.fn, site, one_type):
+            return True, ""
+    return False, _show_leaf(sorted(raw, key=lambda l: (getattr(l[0], "lineno", 0), getattr(l[0], "col_offset", 0)))[0])
+
+
+def declared_scalars_type_fixed(repo: Repo, R: Report) -> None:
+    """C04-D2c."""
+    r = R.rule("C04-D2c-declared-scalar-type-fixed", "a field of a sweep-variable specification that the class declares as a scalar (lo: float, steps: int, scale: Literal[..], endpoint: bool) enters the hashed domain signature with a type chosen by the code, not by the YAML spelling: the signature converts what it reads (`float(spec.lo)`), or every place of the package that constructs the specification converts / validates what it stores there (float(..), a constant, isinstance of one type).  Python does not enforce the declaration, json.dumps writes 2 and 2.0 (1 and true) differently, and the range means the same points either way - a bound that is stored as parsed and signed as stored gives `[0, 2]`, `[0.0, 2.0]` and `{lo: 0, hi: 2, steps: 10}` different node semantic / semantic / config ids", 3)
+    sig = repo.maybe_func(SEM, "variable_domain_signature")
+    if sig is None:
+        raise AnalysisError(f"identity slice anchor vanished: {SEM}:variable_domain_signature")
+    fn = nfunc(repo, SEM, "variable_domain_signature", copyprop="all")
+    params = [a.arg for a in fn.args.posonlyargs + fn.args.args]
+    if not params:
+        raise AnalysisError("variable_domain_signature takes no specification parameter")
+    reads = spec_field_reads(repo, SEM, fn, params[0])
+    # the specification classes: named in the signature function (it dispatches on the class), or defined in a module
+    # whose code hands specifications to the signature function
+    named = {n.value for n in ast.walk(fn) if isinstance(n, ast.Constant) and isinstance(n.value, str)} | {n.id for n in ast.walk(fn) if isinstance(n, ast.Name)} | {n.attr for n in ast.walk(fn) if isinstance(n, ast.Attribute)}
+    caller_mods = set()
+    for mod, qn, f in repo.all_functions():
+        if mod.rel.startswith("semantiva/examples/"):
+            continue
+        for c in calls_in(f):
+            if call_attr(c) == "variable_domain_signature":
+                caller_mods.add(mod.rel)
+    classes = []
+    for mod, qn, c in repo.all_classes():
+        if mod.rel.startswith("semantiva/examples/") or mod.defs.get(qn) is not c:
+            continue
+        fields = _declared_scalar_fields(c)
+        if fields and (c.name in named or mod.rel in caller_mods):
+            classes.append((mod, c, fields))
+    all_fields = {f for _m, _c, fields in classes for f in fields}
+    whole = [x for x in reads if x[0] == "*"]
+    for mod, c, fields in classes:
+        # a class whose declared fields the signature never reads (and that never leaves whole) is not a specification it signs
+        if not any(x[0] in fields for x in reads) and not (whole and (c.name in named or not any(c2.name in named for _m2, c2, _f2 in classes))):
+            continue
+        validated = _membership_validated(c)
+        sites = _constructor_sites(repo, mod, c)
+        order = sorted(fields, key=lambda f: fields[f][1])
+        all_ann = [st.target.id for st in c.body if isinstance(st, ast.AnnAssign) and isinstance(st.target, ast.Name)]
+        for f in order:
+            t = fields[f][0]
+            mine = [x for x in reads if x[0] == f] + (whole if c.name in named or not any(c2.name in named for _m2, c2, _f2 in classes) else [])
+            raw = [x for x in mine if x[2] is None]
+            if not mine:
+                continue
+            if not raw:
+                R.ok(r, SEM, "variable_domain_signature", f"{c.name}.{f}: converted where it is signed ({', '.join(sorted({x[2] for x in mine}))})")
+                continue
+            if f in validated:
+                R.ok(r, mod.rel, c.name, f"{c.name}.{f}: the class accepts text constants only")
+                continue
+            where = raw[0]
+            bad = None
+            for smod, sqn, call, sflow in sites:
+                v = next((kw.value for kw in call.keywords if kw.arg == f), None)
+                if v is None and f in all_ann and all_ann.index(f) < len(call.args) and not any(isinstance(a, ast.Starred) for a in call.args):
+                    v = call.args[all_ann.index(f)]
+                if v is None:
+                    continue  # the declared default (a constant of the class)
+                ok, what = _type_fixed_value(sflow, call, v)
+                if not ok:
+                    bad = (smod, sqn, call, v, what)
+                    break
+            if bad is None:
+                R.ok(r, SEM, "variable_domain_signature", f"{c.name}.{f}: signed as stored; converted / validated at each of the {len(sites)} construction site(s)")
+                continue
+            smod, sqn, call, v, what = bad
+            R.violation(r, smod.rel, sqn, norm(stmt_of(call))[:110],
+                        f"`{c.name}.{f}` is declared `{t}` but holds here whatever the configuration spelled (`{what}` - no float()/int()/str()/bool(), no isinstance of one type on the way), and the domain signature signs it as stored (`{norm(where[1])[:60]}` in {where[4]}, {where[3]}: " + ("the whole object is serialised field by field" if where[0] == "*" else "read without a conversion") + f"): json.dumps writes an integer and a float (a number and a boolean) of the same value differently, so two spellings of the same {c.name} (`2` / `2.0`, shorthand / long form) get different node semantic ids, semantic id and config id, in the inspection payload and on pipeline_start", getattr(call, "lineno", 0))
+    if not all_fields:
+        raise AnalysisError("no sweep-variable specification class with declared scalar fields found (named in variable_domain_signature or defined next to its callers)")
